@@ -170,8 +170,10 @@ func (h *Handler) Handle(req, resp dhcpv6.DHCPv6) (dhcpv6.DHCPv6, bool) {
 		// Then handle the empty hints, by giving out any remaining lease we
 		// have already assigned to this client
 		for hintIdx, h := range hints {
+			// A hint without an address: nil prefix, the placeholder hint for an
+			// IA_PD without IAPrefix option (no IP at all), or ::
 			if satisfied.Test(uint(hintIdx)) ||
-				(h.Prefix != nil && !h.Prefix.IP.Equal(net.IPv6zero)) {
+				(h.Prefix != nil && len(h.Prefix.IP) != 0 && !h.Prefix.IP.Equal(net.IPv6zero)) {
 				continue
 			}
 			for leaseIdx, l := range knownLeases {
